@@ -17,7 +17,8 @@ EXPLANATION = (
     "tracker start() sets and end() clears the flag is_reacting() returns, and every accessor field is written from the "
     "claimed entry. Every public reader method reaches tracker data only on the is_reacting()==true arm; typed entity "
     "readers additionally only on the arm of their own reaction variant and after an equal TypeId comparison with "
-    "TypeId::of::<T>() of their own T; EntityLocal only after check(). The claim predicate of start() must depend on "
+    "TypeId::of::<T>() of their own T; EntityLocal only after check(). Two reader types gated by the same tracker query "
+    "different storage components, or each examines a tag field of the shared storage (C03.j). The claim predicate of start() must depend on "
     "something unique per prepare(): today it depends on the system id only (known finding F3, four keys).")
 
 NOT_DECIDED = [
@@ -437,8 +438,11 @@ def check(ctx):
                 typed_reader(ctx, prog, m, mk, accs, READER_VARIANT[rname], accessor_fields)
             if rname == "EntityLocal" and m.raw.get("name") != "check":
                 chk = [b for b, t, cb in lib.local_call_bodies(prog, m) if cb.raw.get("name") == "check" and lib.impl_self_path(cb) == rty]
+                # (the guard inlined into the accessor: reads sit on the arm where the systems matched, or are the comparison's operand)
+                heads_m, operands_m = _system_match_heads(prog, m) if not chk else ([], set())
                 for b, t, cb, sp in accs:
-                    ctx.check(any(m.dominates(lib.call_target(m, c), b) for c in chk), "C03.c", "%s:%s-after-check" % (mk, cb.raw.get("name")),
+                    ctx.check(any(m.dominates(lib.call_target(m, c), b) for c in chk) or b in operands_m or (bool(heads_m) and lib.dominated_by_any(m, b, heads_m)),
+                              "C03.c", "%s:%s-after-check" % (mk, cb.raw.get("name")),
                               m.loc(b), "accessor after check()", "EntityLocal reads the tracker without calling check() first")
         if rname == "EntityLocal":
             entity_local_check(ctx, prog, rty, trackers)
@@ -478,6 +482,69 @@ def check(ctx):
                     ctx.check(mm.group(2) == "T", "C03.c", "%s:payload-type-is-own-T" % rname, "%s:%d" % (adt["file"], adt["line"]),
                               "%s queries %s<T>" % (rname, mm.group(1)), "%s queries %s<%s>, not its own T" % (rname, mm.group(1), mm.group(2)))
     ctx.floor("C03.c", n_methods, 10, "reader methods that touch a tracker accessor")
+    # ---- C03.j readers that share a tracker are told apart by what they query: the tracker says *that* a run of this kind of
+    # command reads *some* stored payload at an entity, not which kind stored it. Two reader types gated by the same tracker must
+    # query different storage components, or each must examine a field of the shared storage other than the payload ----
+    storage_of = {}
+    own_methods = {}
+    for b_ in prog.bodies:
+        if b_.kind == "assoc_fn" and not b_.raw.get("impl_trait"):
+            own_methods.setdefault(lib.impl_self_path(b_), []).append(b_)
+    for rty in readers:
+        adt = prog.adts.get(rty)
+        if not adt or not own_methods.get(rty):       # (the derive's `FetchState` twins have no methods: nothing reads through them)
+            continue
+        for f in adt["variants"][0]["fields"]:
+            if "Query<" not in f["ty"]:
+                continue
+            for cand in prog.adts:
+                if cand != rty and re.search(r"(?<![\w:])%s(?![\w])" % re.escape(cand), f["ty"]):
+                    storage_of.setdefault(rty, set()).add(cand)
+    n_pairs = 0
+    rl = sorted(storage_of)
+    for i_, r1 in enumerate(rl):
+        for r2 in rl[i_ + 1:]:
+            if not (set(readers[r1]) & set(readers[r2])):
+                continue
+            n_pairs += 1
+            shared = storage_of[r1] & storage_of[r2]
+            n1, n2 = r1.split("::")[-1], r2.split("::")[-1]
+            if not shared:
+                ctx.ok("C03.j", "%s/%s:storage-kind-exclusive" % (n1, n2), "", "distinct storage components: %s vs %s" % (
+                    sorted(x.split("::")[-1] for x in storage_of[r1]), sorted(x.split("::")[-1] for x in storage_of[r2])))
+                continue
+            for st_adt in sorted(shared):
+                sadt = prog.adts[st_adt]
+                # (a bare capitalised identifier is a type parameter: the payload)
+                tag_fields = {f["name"] for f in sadt["variants"][0]["fields"] if not re.fullmatch(r"[A-Z]\w*", f["ty"])}
+                for rty in (r1, r2):
+                    rname = rty.split("::")[-1]
+                    seen_b, todo, examined = set(), list(own_methods.get(rty, [])), False
+                    depth_of = {m.path: 0 for m in todo}
+                    while todo:
+                        m = todo.pop()
+                        if m.path in seen_b:
+                            continue
+                        seen_b.add(m.path)
+                        for c_ in prog.closures_of(m):
+                            if c_.path not in depth_of:
+                                depth_of[c_.path] = depth_of[m.path]
+                                todo.append(c_)
+                        for bb_, i2_, st_ in m.iter_stmts():
+                            for (a_, f_) in _fields_mentioned(st_):
+                                if a_ == st_adt and f_ in tag_fields:
+                                    examined = True
+                        for bb_, t_, fr_ in m.iter_calls():
+                            cal = prog.resolve_local(fr_) if fr_ is not None else None
+                            if cal is not None and cal.path not in depth_of and depth_of[m.path] < 3 \
+                                    and (lib.impl_self_path(cal) == st_adt or cal.kind == "fn" or lib.impl_self_path(cal) == rty):
+                                depth_of[cal.path] = depth_of[m.path] + 1
+                                todo.append(cal)
+                    ctx.check(examined, "C03.j", "%s:tells-shared-storage-%s-apart" % (rname, st_adt.split("::")[-1]), "%s:%d" % (prog.adts[rty]["file"], prog.adts[rty]["line"]),
+                              "the reader examines a tag field of the storage it shares with %s" % (n2 if rty == r1 else n1),
+                              "%s reads %s, which %s reads too (same tracker), without examining any field of it but the payload: it reports the other kind's data as its own"
+                              % (rname, st_adt.split("::")[-1], n2 if rty == r1 else n1))
+    ctx.floor("C03.j", n_pairs, 1, "pairs of reader types that share a tracker and query stored payloads")
 
     # ---- C03.g a run postponed by recursion is replayed with its own setup and cleanup (shared with C02.c) ----
     import c02 as _c02
@@ -501,6 +568,20 @@ def check(ctx):
     ni = _core.adopt(ctx, _c05, lambda o: o["rule"] in ("C05.a", "C05.b"), "C03.i")
     ctx.floor("C03.i", ni, 4, "shared reader-count obligations (C05.a/b)")
     ctx.sample({"trackers": sorted(t.split("::")[-1] for t in trackers), "readers": sorted(r.split("::")[-1] for r in readers)})
+
+
+def _fields_mentioned(x):
+    """(adt, field name) of every field projection in a statement"""
+    out = []
+    if isinstance(x, dict):
+        if "f" in x and "adt" in x and "name" in x:
+            out.append((x["adt"], x["name"]))
+        for v in x.values():
+            out.extend(_fields_mentioned(v))
+    elif isinstance(x, list):
+        for v in x:
+            out.extend(_fields_mentioned(v))
+    return out
 
 
 def pending_field(prog, ty, prep):
@@ -747,7 +828,10 @@ def typed_reader(ctx, prog, m, mk, accs, variant, accessor_fields):
         dest = t["dest"]["l"]
         for (sb, place, targets, otherwise) in lib.discr_switches(m):
             if place["l"] != dest:
-                continue
+                # (the value handed on by whole-value moves - a helper's parameter after inlining - is still the accessor's result)
+                os_ = origins(m, {"copy": {"l": place["l"], "p": []}})
+                if not os_ or not all(o[0] == "call" and o[1] == rb and len(o) == 2 for o in os_):
+                    continue
             res = lib.enum_arms(m, prog, sb)
             if not res:
                 continue
@@ -927,28 +1011,22 @@ def own_type_id_getter(ctx, prog, cb):
     return ok
 
 
-def entity_local_check(ctx, prog, rty, trackers):
-    try:
-        chk = A.method(prog, "EntityLocal", "check")
-    except mir.AnchorLost as e:
-        ctx.fail("C03.c", "anchor-lost:EntityLocal::check", "", str(e))
-        return
-    ctx.touch(chk)
-    g = gate_info(prog, chk, trackers)
-    ctx.check(bool(g), "C03.c", "EntityLocal::check:passes-is_reacting", "%s:%d" % (chk.file, chk.line),
-              "every returning path of check() passed is_reacting()==true", "check() can return without is_reacting() being true")
-    # system comparison
+def _system_match_heads(prog, chk):
+    """(heads, comparison operand call blocks): the arms on which `tracker.system() == reactor.system()` held (getters by role)"""
     heads = []
+    operands = set()
     for b, t, fr in chk.iter_calls():
         if fr is None or lib.tail(mir.fn_name(fr), 1) not in ("eq", "ne") or len(t["args"]) < 2:
             continue
         names = set()
+        ops_ = set()
         for a in t["args"][:2]:
             for o in origins(chk, a):
                 if o[0] == "call":
                     fr2 = op_fn(chk.blocks[o[1]]["term"]["func"])
                     cb2 = prog.resolve_local(fr2) if fr2 else None
                     if cb2 is not None:
+                        ops_.add(o[1])
                         names.add((lib.impl_self_name(cb2), cb2.raw.get("name")))
                         # by role (private getters may be renamed): the tracker's getter of the running system id, the
                         # reactor handle's getter of its own system id
@@ -958,10 +1036,34 @@ def entity_local_check(ctx, prog, rty, trackers):
                                 and "SystemCommand" in cb2.local_ty(0):
                             names.add(("EntityReactor", "system"))
         if ("EntityReactionAccessTracker", "system") in names and ("EntityReactor", "system") in names:
+            operands |= ops_
             for (sb, tt, ft) in lib.bool_arms(chk, b):
                 heads.append(tt if lib.tail(mir.fn_name(fr), 1) == "eq" else ft)
-    rets = chk.return_blocks()
-    ctx.check(bool(heads) and bool(rets) and all(lib.dominated_by_any(chk, r, heads) for r in rets), "C03.c",
+    return heads, operands
+
+
+def entity_local_check(ctx, prog, rty, trackers):
+    try:
+        chks = [A.method(prog, "EntityLocal", "check")]
+    except mir.AnchorLost as e:
+        # the guard may have been folded into the accessors (or into a value-returning helper that the view inlined there):
+        # every method of EntityLocal that reads the tracker is then its own guard
+        chks = [m for m in prog.bodies if m.kind == "assoc_fn" and not m.raw.get("impl_trait") and lib.impl_self_path(m) == rty
+                and any(lib.impl_self_path(cb) in trackers and cb.raw.get("name") != "is_reacting" for b, t, cb in lib.local_call_bodies(prog, m))]
+        if not chks:
+            ctx.fail("C03.c", "anchor-lost:EntityLocal::check", "", str(e))
+            return
+    g_all, sys_all = True, True
+    for chk in chks:
+        ctx.touch(chk)
+        g_all = g_all and bool(gate_info(prog, chk, trackers))
+        heads, _ = _system_match_heads(prog, chk)
+        rets = chk.return_blocks()
+        sys_all = sys_all and bool(heads) and bool(rets) and all(lib.dominated_by_any(chk, r, heads) for r in rets)
+    chk = chks[0]
+    ctx.check(g_all, "C03.c", "EntityLocal::check:passes-is_reacting", "%s:%d" % (chk.file, chk.line),
+              "every returning path of check() passed is_reacting()==true", "check() can return without is_reacting() being true")
+    ctx.check(sys_all, "C03.c",
               "EntityLocal::check:reacting-system-is-this-reactor", "%s:%d" % (chk.file, chk.line),
               "check() returns only when tracker.system() == reactor.system()",
               "check() can return without the reacting system being this reactor's system")
